@@ -19,11 +19,11 @@ import tempfile
 ENV = dict(os.environ, GOFLAGS="-mod=mod", GOPROXY="off", GOSUMDB="off", GOTOOLCHAIN="local")
 
 
-def harness_names(overlays):
+def harness_names(overlays, exclude=()):
     names = []
     for od in overlays:
         for f in sorted(os.listdir(od)):
-            if f.endswith(".go"):
+            if f.endswith(".go") and f not in exclude:
                 names += re.findall(r"^func (H_\w+)\(\)", open(os.path.join(od, f)).read(), re.M)
     return names
 
@@ -40,13 +40,13 @@ def build(root, repo, rdir, run, overlays):
     pkgpath = "github.com/fsnotify/fsnotify" + ("" if pkg == "." else "/" + pkg)
     for od in overlays:
         for f in sorted(os.listdir(od)):
-            if not f.endswith(".go") or f == "intrinsics.go":
+            if not f.endswith(".go") or f == "intrinsics.go" or f in run.get("exclude", []):
                 continue
             dst = os.path.join(gen, "h_" + os.path.basename(od) + "_" + f)
             shutil.copy(os.path.join(od, f), dst)
             mapping[os.path.join(pkgdir, "zz_verif_%s_%s_test.go" % (os.path.basename(od), f[:-3]))] = dst
     tmpl = open(os.path.join(root, "native", "verif_native.go.txt")).read()
-    hm = "".join('\t"%s": %s,\n' % (h, h) for h in harness_names(overlays))
+    hm = "".join('\t"%s": %s,\n' % (h, h) for h in harness_names(overlays, run.get("exclude", [])))
     nat = tmpl.replace("PKGNAME", pkgname).replace("PKGPATH", pkgpath).replace("HARNESSMAP", hm)
     natf = os.path.join(gen, "verif_native.go")
     open(natf, "w").write(nat)
